@@ -551,6 +551,23 @@ func C09(run *core.Run) {
 			if j.l.name == "js" && strings.Contains(v, "second pass: unexpected ** in expression") && c09IncrExp.Match(out) && run.KnownSignature("js-exp-after-prefix-increment-second-pass") {
 				return
 			}
+			// three families that byte-level mutations of programs keep reaching (open findings, by signature: the
+			// independent parser's message together with the construct in the input and its trace in the output)
+			if (j.l.name == "js" || j.l.name == "html") && strings.Contains(v, "Unexpected token") && c09EmptyPatternDecl.Match(j.in) && bytes.Contains(out, []byte("{}=")) && run.KnownSignature("js-empty-pattern-declaration-hoisted") {
+				return
+			}
+			if (j.l.name == "js" || j.l.name == "html") && strings.Contains(v, "Unary operator used immediately before exponentiation") && c09BangBeforeExp.Match(out) && run.KnownSignature("js-bang-prefix-before-exponent") {
+				return
+			}
+			if (j.l.name == "js" || j.l.name == "html") && c09AwaitOutsideAsync(j.in) && bytes.Contains(out, []byte("await")) && strings.Contains(v, "rejects the output") && run.KnownSignature("js-await-identifier") {
+				return // `await` used as an identifier in script code (outside every async function of the input)
+			}
+			if (j.l.name == "js" || j.l.name == "html") && c09LetStarStar.Match(j.in) && run.KnownSignature("js-let-identifier") {
+				return
+			}
+			if j.l.name == "html" && c09ScriptCloseSplit.Match(j.in) && run.KnownSignature("html-script-close-created-by-string-merge") {
+				return
+			}
 			key := core.Key(cfg, j.in)
 			if run.IsKnown(core.Key("*", j.in)) {
 				key = core.Key("*", j.in)
@@ -565,6 +582,48 @@ func C09(run *core.Run) {
 		[]string{"independent parsers: acorn + V8 (JS), encoding/json, my XML tokenizer + encoding/xml (XML/SVG), my HTML tag-level scanner + acorn/V8 for inline scripts (HTML), my CSS lexical scanner (CSS)",
 			"when the independent parser rejects the input, only the second pass is demanded (and only if the parser accepts the output)",
 			"guard: inputs containing an escaped `<` directly before /script or !-- (\\x3C/script) are not admitted (known finding html-script-close-decoded)"}, 500, false)
+}
+
+var (
+	c09EmptyPatternDecl = regexp.MustCompile(`\b(var|let|const)\s*\{\s*\}\s*=`)
+	c09LetStarStar      = regexp.MustCompile(`\blet\s*\*\*|\(\s*let\s*\[`) // `let` used as an identifier in front of ** or indexed inside parentheses
+	c09ScriptCloseSplit = regexp.MustCompile(`(?i)</scr["']\s*\+\s*["']ipt`)
+	c09BangBeforeExp    = regexp.MustCompile(`!(class|function)\b[^;]*\*\*`)
+)
+
+// c09AwaitOutsideAsync: the text has an `await` that does not sit inside the braces of an async function or
+// arrow (a rough scan: braces are counted without regard to strings; it only serves to name a known family).
+func c09AwaitOutsideAsync(in []byte) bool {
+	b := append([]byte{}, in...)
+	for {
+		i := bytes.Index(b, []byte("async"))
+		if i < 0 {
+			break
+		}
+		j := bytes.IndexByte(b[i:], '{')
+		if j < 0 {
+			copy(b[i:], "_____")
+			continue
+		}
+		k, depth := i+j, 0
+		for ; k < len(b); k++ {
+			if b[k] == '{' {
+				depth++
+			} else if b[k] == '}' {
+				depth--
+				if depth == 0 {
+					break
+				}
+			}
+		}
+		if k >= len(b) {
+			k = len(b) - 1
+		}
+		for x := i; x <= k; x++ {
+			b[x] = '_'
+		}
+	}
+	return regexp.MustCompile(`\bawait\b`).Match(b)
 }
 
 var _ = minify.ErrNotExist
